@@ -238,5 +238,7 @@ func ruleC18(w *World, r *Report) {
 		r.Check(n == 2, "C18.update/writes", "MUST-PASS", fn, w.Pos(fi.Fn.Pos()), "update writes header index and root index", fmt.Sprintf("update performs %d of the 2 expected index writes", n))
 	}
 	r.Info("C18.single-chain", "MUST-PASS", shortPath(pETH)+".RestrictChain", "-", "not decided: the single parent-linked chain after a reorganisation depends on loop arithmetic over heights in RestrictChain (value reasoning, outside this family)")
+	// the keeper (shared by all client types) stores what the accepted header defines
+	k.keeperUpdateRule("C18")
 	r.MinInstances("C18.", 30)
 }
